@@ -15,6 +15,7 @@ import (
 	dbm "github.com/cometbft/cometbft-db"
 	abci "github.com/cometbft/cometbft/abci/types"
 	sdk "github.com/cosmos/cosmos-sdk/types"
+	aoltypes "github.com/medibloc/panacea-core/v2/x/aol/types"
 	pnfttypes "github.com/medibloc/panacea-core/v2/x/pnft/types"
 )
 
@@ -87,6 +88,50 @@ func monC09ReadHistory(s *Stream) {
 		}
 		if da, db := denomOf(a, "plain"), denomOf(b, "plain"); da != db {
 			return "fail #replicas-answer-differently-about-the-denom"
+		}
+		return "pass"
+	}))
+}
+
+// mon.c09.node-config: two replicas that differ only in node-local configuration — the operator's `minimum-gas-prices`,
+// which is a mempool (CheckTx) setting — execute the same blocks, with fees below, at and above the stricter node's
+// minimum.  Results, hashes and the committed state must be the same.
+func monC09NodeConfig(s *Stream) {
+	s.Emit("mon.c09.node-config", guard(func() string {
+		accts := rtAccts()
+		a, err := NewChain(dbm.NewMemDB(), tmpHome(), accts, 100000000, nil)
+		if err != nil {
+			return "pass #no-chain"
+		}
+		nodeLocalMinGasPrices = "5" + feeDenom
+		b, err := NewChain(dbm.NewMemDB(), tmpHome(), accts, 100000000, nil)
+		nodeLocalMinGasPrices = ""
+		if err != nil {
+			return "pass #no-chain"
+		}
+		t := a.Time
+		for bl, fees := range [][]int64{{0, 1, 2000000}, {10000000, 3, 0}, {1, 1, 1}} {
+			t = t.Add(5 * time.Second)
+			var txs [][]byte
+			for i, fee := range fees {
+				m := &aoltypes.MsgCreateTopicRequest{TopicName: fmt.Sprintf("t%d%d", bl, i), Description: "d", OwnerAddress: accts[i].Bech()}
+				bz, err := a.BuildTx(TxSpec{Msgs: []sdk.Msg{m}, Signers: []SignerSpec{{Acct: accts[i]}}, Fee: fee, Gas: 1000000})
+				if err != nil {
+					return "pass #cannot-build"
+				}
+				txs = append(txs, bz)
+			}
+			ra, ha := runBlock(a, t, txs)
+			rb, hb := runBlock(b, t, txs)
+			if strings.Join(ra, "\n") != strings.Join(rb, "\n") {
+				return fmt.Sprintf("fail #deliver-results-differ in block %d", bl+1)
+			}
+			if !bytes.Equal(ha, hb) {
+				return fmt.Sprintf("fail #apphash-differs in block %d", bl+1)
+			}
+		}
+		if dumpsOf(a, a.QueryCtx()) != dumpsOf(b, b.QueryCtx()) {
+			return "fail #committed-state-differs"
 		}
 		return "pass"
 	}))
